@@ -833,6 +833,11 @@ func (w *worldA) tweak(r *simrt.Rand, s *AScenario, end int) {
 			restarts(1)
 		}
 		s.Out2 = r.Bool(35) // queued chunks of every output have to be taken over
+		if r.Bool(20) {
+			// "at any moment" includes the moment of a stop: a SIGHUP right before the stop request of a graceful restart
+			at := r.Intn(end + 3000)
+			s.Events = append(s.Events, AEvent{AtMs: at, Kind: "sighup_valid"}, AEvent{AtMs: at, Kind: "restart"})
+		}
 	case "c18":
 		s.Events = nil
 		restarts(1 + r.Intn(3))
@@ -1306,7 +1311,7 @@ func (r *aRun) drive() {
 		})
 	}
 	// timed events, in order
-	for _, ev := range s.Events {
+	for ei, ev := range s.Events {
 		if d := ms(ev.AtMs) - simrt.Now(); d > 0 {
 			simrt.Sleep("a.driver.event", d)
 		}
@@ -1334,7 +1339,11 @@ func (r *aRun) drive() {
 				r.out.fault(ev.Kind, 1)
 				r.reloads = append(r.reloads, variant)
 			}
-			// the reload reads the file asynchronously; keep it in place for a while
+			// the reload reads the file asynchronously; keep it in place for a while - unless the scenario asks for a stop at the
+			// same moment (a restart scheduled for the same millisecond): then the stop request races with the reload
+			if ei+1 < len(s.Events) && s.Events[ei+1].Kind == "restart" && s.Events[ei+1].AtMs == ev.AtMs {
+				break
+			}
 			simrt.Sleep("a.driver.reload", 50*time.Millisecond)
 		}
 	}
